@@ -235,6 +235,26 @@ pub fn generate(tier: &str, rng: &mut Rng) -> (Vec<String>, bool) {
             }
             out.push(l);
         }
+        // signed zeros: `0` and `-0` tie numerically but differ bit for bit, so which of two tied
+        // extrema a kernel keeps (incremental update against expiry re-scan) is observable here
+        // and must not depend on the pre-window history
+        if f.exact {
+            for i in 0..(if thorough { 1500 } else { 150 }) {
+                let tl = 2 + rng.below(5);
+                let w = 1 + rng.below(tl);
+                let hl = 1 + rng.below(4);
+                let zt = |rng: &mut Rng| -> String {
+                    match rng.below(if f.nullable { 8 } else { 7 }) { 0 | 1 | 2 => "0".into(), 3 | 4 | 5 => "-0".into(), 6 => ["1", "-1"][rng.below(2)].into(), _ => "_".into() }
+                };
+                let hv = |rng: &mut Rng| -> String { ["5", "-5", "0", "-0", "2", "-2", "1", "-1"][rng.below(8)].into() };
+                let xs: Vec<String> = (0..tl).map(|_| zt(rng)).collect();
+                let ha: Vec<String> = (0..hl).map(|_| hv(rng)).collect();
+                let hb: Vec<String> = (0..hl).map(|_| hv(rng)).collect();
+                let mp = 1 + rng.below(w);
+                let b = if i % 3 == 0 { " b=deque1" } else if i % 3 == 1 { " b=ndv2" } else { "" };
+                out.push(format!("C06hist f={} w={} mp={} t=f64 o=f64{} tol=0 xs={} ha={} hb={}{}", f.name, w, mp, b, join(&xs), join(&ha), join(&hb), f.extra));
+            }
+        }
         // a constant tail behind a short history of decimal fractions (not representable, so the
         // running sums keep a residue): the variance floor must still give the constant-window result
         if f.family == "feat" && f.pow >= 2 {
